@@ -28,6 +28,7 @@ ROOT = os.path.dirname(os.path.dirname(os.path.abspath(__file__)))
 REPO = os.environ.get("VERIF_REPO", "/repo")
 NPROC = int(os.environ.get("VERIF_NPROC", "16"))
 MAX_VIOLATIONS_PER_SHARD = 5
+MAX_VIOLATING_CASES_PER_SHARD = 40
 SHRINK_BUDGET = float(os.environ.get("VERIF_SHRINK_BUDGET", "20"))  # seconds of shrinking per shard after the first failure
 
 
@@ -161,12 +162,16 @@ class Acc:
 
     def run_enum(self, check_case, cases):
         for case in cases:
+            if stop_requested():
+                # another shard of this run has already reported a violation: the verdict is settled, do not burn the budget
+                self.note("shards_cut_short_after_a_violation_elsewhere")
+                break
             exc = self.evaluate(check_case, case, enumerated=True)
             if exc is not None:
                 if not any(v["clause"] == exc.clause for v in self.violations):
                     self.add_violation(case, exc)
                 self.tags["violating_cases"] += 1
-                if len(self.violations) >= MAX_VIOLATIONS_PER_SHARD or exc.clause == "non-termination":
+                if len(self.violations) >= MAX_VIOLATIONS_PER_SHARD or self.tags["violating_cases"] >= MAX_VIOLATING_CASES_PER_SHARD or exc.clause == "non-termination":
                     break
 
     def run_hypothesis(self, check_case, strategy, max_examples, seed, shrink=True):
@@ -180,6 +185,9 @@ class Acc:
         def body(case):
             if holder.get("abort"):
                 raise KeyboardInterrupt()  # makes Hypothesis stop at once; caught below
+            if "failure" not in holder and stop_requested():
+                holder["stopped"] = True
+                raise KeyboardInterrupt()
             if "shrink_until" in holder and time.time() > holder["shrink_until"]:
                 # shrinking budget used up: keep the smallest failure found so far (the verdict is not affected)
                 holder["abort"] = True
@@ -214,6 +222,9 @@ class Acc:
             case, exc = holder["failure"]
             self.add_violation(case, exc)
         except KeyboardInterrupt:
+            if holder.get("stopped") and "failure" not in holder:
+                self.note("shards_cut_short_after_a_violation_elsewhere")
+                return
             if not holder.get("abort"):
                 raise
             case, vexc = holder["failure"]
@@ -307,7 +318,14 @@ def _exit_with_parent():
     threading.Thread(target=watch, daemon=True).start()
 
 
-def _worker_init(prop_id, assertions):
+def stop_requested():
+    """True once the parent process has seen a violation from any shard of this run (workers only)."""
+    event = _WORKER.get("stop")
+    return event is not None and event.is_set()
+
+
+def _worker_init(prop_id, assertions, stop_event=None):
+    _WORKER["stop"] = stop_event
     os.environ["ANYTREE_ASSERTIONS"] = "1" if assertions else "0"
     os.environ.setdefault("PYTHONHASHSEED", "0")
     _setup_import_path()
@@ -360,11 +378,12 @@ def run_tasks(prop_id, tasks, total):
 
     ctx = multiprocessing.get_context("spawn")
     lock = threading.Lock()
+    stop_event = ctx.Event()
 
     def run_group(assertions, group):
         # the groups (one per ANYTREE_ASSERTIONS setting) run side by side, each in its own pool of worker processes
         nproc = max(1, min(NPROC if len(groups) == 1 else (NPROC * 3) // 4, len(group)))
-        with cf.ProcessPoolExecutor(nproc, mp_context=ctx, initializer=_worker_init, initargs=(prop_id, assertions)) as pool:
+        with cf.ProcessPoolExecutor(nproc, mp_context=ctx, initializer=_worker_init, initargs=(prop_id, assertions, stop_event)) as pool:
             futures = {pool.submit(_worker_run, task): task for task in sorted(group, key=lambda t: -int(t.get("weight", 1)))}
             for fut in cf.as_completed(futures):
                 try:
@@ -377,6 +396,9 @@ def run_tasks(prop_id, tasks, total):
                     total.merge(res["part"])
                     if res["error"]:
                         total.errors.append((res["task"], res["error"]))
+                    if total.violations and not stop_event.is_set():
+                        # the verdict is settled: shards still running stop at their next case, queued ones return at once
+                        stop_event.set()
 
     threads = [threading.Thread(target=run_group, args=(a, g)) for a, g in groups.items()]
     for th in threads:
